@@ -130,3 +130,31 @@ void harness(void) {
 #endif
 void _dispatch_lane_drain_barrier_waiter(u64 dq, u64 dc, u32 flags, u64 owned) { ASSERT(0, "barrier waiter path not part of this lemma"); }
 void _dispatch_workloop_drain_barrier_waiter(u64 dq, u64 dc, u32 qos, u32 flags, u64 owned) { ASSERT(0, "workloop path not part of this lemma"); }
+
+#ifdef H_SYNCDONE
+/* the end of an uncontended dispatch_sync / dispatch_barrier_sync on a serial queue: _dispatch_lane_barrier_sync_invoke_and_complete.
+   Between its look at the list tail and its unlocking compare-and-swap another thread may enqueue itself (setting DIRTY): the unlock must then be refused. */
+static _Bool st_valid(u64 s) { return OWNER(s) == TID && (s & IN_BARRIER) && WFIELD(s) >= 1 && !(s & ENQUEUED_ON_MGR); }
+static int callouts, lane_bcompletes;
+void _dispatch_client_callout(u64 ctxt, u64 f) { callouts++; }
+void _dispatch_lane_barrier_complete(u64 dq, u32 qos, u32 flags) { lane_bcompletes++; }
+void harness(void) {
+  st_setup(); ASSUME(in_width == 1); IR_ST16(DQ + P_OFF_dq_width, 1);
+  ASSUME(st_valid(in_state)); ASSUME(!(in_state & ROLE_BASE_WLH)); st_interfere_on = 1;
+  IR_ST64(DQ + P_OFF_items_tail, 0);       /* nothing queued when the owner looks */
+  _dispatch_lane_barrier_sync_invoke_and_complete(DQ, 7, 0x77);
+  ASSERT(callouts == 1, "the work item runs exactly once");
+  if (lane_bcompletes) {
+    ASSERT(st_ntrans == 0, "slow completion: the fast unlock did not touch the word");
+    ASSERT(st_last_seen & (SUSPEND_BITS | ENQUEUED | DIRTY | RECEIVED_OVERRIDE | SYNC_TRANSFER), "the slow completion is taken only for a documented reason");
+    WITNESS_IF(st_last_seen & DIRTY, "fast unlock refused because a waiter made the queue DIRTY");
+  } else {
+    u64 o = st_last_old, n = st_last_new;
+    ASSERT(st_ntrans == 1, "fast unlock: exactly one update");
+    ASSERT(!(o & DIRTY), "HAND-OFF: the uncontended sync completion never releases the queue past a DIRTY bit (a waiter that enqueued itself meanwhile would be stranded)");
+    ASSERT(!(o & (ENQUEUED | SYNC_TRANSFER)) && !IS_SUSPENDED(o), "nor past an enqueue, a sync transfer or a suspension");
+    ASSERT(OWNER(n) == 0 && !(n & IN_BARRIER) && WFIELD(n) == WFIELD(o) - 1, "the queue is released: owner cleared, barrier and width given back");
+    WITNESS_REACHED("fast unlock taken");
+  }
+}
+#endif
